@@ -27,6 +27,7 @@ def gen_case(seed, i, tier, with_faults=False):
     r = Rng(rs, 'prog')
     hot = r.below(3)
     hot_item = r.below(6)
+    hot_attr = r.below(6)
 
     def arg1(item=False):
         if item:
@@ -40,7 +41,20 @@ def gen_case(seed, i, tier, with_faults=False):
         for _ in range(r.randint(4, 12)):
             op = r.weighted(R_STEPS)
             item = op in ('item_attr', 'tags_iter', 'tags_len', 'nav')
-            steps.append([op, arg1(item), r.below(10) if op != 'items_in' else hot_item])
+            b = r.below(10) if op != 'items_in' else hot_item
+            if op == 'attr' and r.chance(0.6):
+                b = hot_attr             # the reader keeps coming back to one attribute ...
+            steps.append([op, arg1(item), b])
+        if r.chance(0.5):
+            # mirror form: observe, do something of its own in between (write another attribute of the same
+            # object, flush, commit - the transaction ends, the session and what it has seen do not), observe the
+            # same things again
+            first = [st for st in steps if st[0] not in ('own_write', 'flush', 'commit')][:r.randint(1, 4)]
+            mid = []
+            for _ in range(r.randint(0, 3)):
+                m = r.weighted([('own_write', 3), ('commit', 3), ('flush', 1), ('sel', 1), ('get', 1)])
+                mid.append([m, hot if r.chance(0.8) else r.below(3), r.below(10)])
+            steps = first + mid + [list(st) for st in first]
         kind = r.weighted([('opt', 8), ('nonopt', 1), ('serializable', 1)])
         rprog.append({'role': 'reader', 'kind': kind, 'steps': steps})
     threads['T0'] = rprog
@@ -51,7 +65,10 @@ def gen_case(seed, i, tier, with_faults=False):
             for _ in range(r.randint(1, 2)):
                 op = r.weighted(W_STEPS)
                 item = op in ('upd_item', 'move', 'del_item', 'tag_add', 'tag_remove')
-                steps.append([op, arg1(item), r.below(10)])
+                b = r.below(10)
+                if op == 'upd' and r.chance(0.6):
+                    b = hot_attr         # ... which the writers change
+                steps.append([op, arg1(item), b])
             prog.append({'role': 'writer', 'steps': steps})
         threads['T%d' % t] = prog
     faults = []
